@@ -16,6 +16,17 @@ from common import ROOT, Outcome  # noqa: E402
 ENGINES = {
     "C09": ("eng_stack", "proof"),
     "C14": ("eng_text", "proof"),
+    "C18": ("eng_pratt", "proof"),
+    "C01": ("eng_core", "other"),
+    "C02": ("eng_core", "other"),
+    "C03": ("eng_core", "other"),
+    "C04": ("eng_core", "other"),
+    "C05": ("eng_core", "other"),
+    "C06": ("eng_core", "other"),
+    "C07": ("eng_core", "other"),
+    "C08": ("eng_core", "other"),
+    "C13": ("eng_core", "other"),
+    "C16": ("eng_core", "other"),
 }
 
 
